@@ -105,6 +105,22 @@ def _mk_si(sig, v=1.0):
     return x
 
 
+_LIVE = []      # results made during the case with what they were (value bits, signature, text): re-read at its end
+
+
+def _still_the_same(ctx):
+    for r, sihex, sig, text, what in _LIVE:
+        ctx.count("results_re-read_at_the_end")
+        try:
+            ok = float(r.si).hex() == sihex and _sig_of(r) == sig and str(r) == text
+        except Exception:
+            ok = False
+        if not ok:
+            ctx.viol("earlier-result-changed-afterwards", {"operation": what, "was": [sihex, sig, text], "now": [float(r).hex(), _sig_of(r), str(r)]})
+            break
+    del _LIVE[:]
+
+
 def _judge_binop(ctx, what, r, want_si, want_sig, info):
     from vlib.base import fx
     ctx.count("products_quotients")
@@ -112,6 +128,10 @@ def _judge_binop(ctx, what, r, want_si, want_sig, info):
     if sig is None:
         ctx.viol(f"{what}:result-not-a-quantity", {**info, "result": repr(r), "type": type(r).__name__})
         return
+    try:
+        _LIVE.append((r, float(r.si).hex(), sig, str(r), what))
+    except Exception as e:
+        ctx.viol(f"{what}:result-not-printable:{type(e).__name__}", {**info, "exc": repr(e)})
     if sig != want_sig:
         ctx.viol(f"{what}:signature", {**info, "result_type": type(r).__name__, "got": sig, "want": want_sig})
     if fx(float(r.si)) != fx(float(want_si)):
@@ -138,6 +158,13 @@ def _must_refuse(ctx, what, fn, info):
 
 
 def run_case(case, ctx):
+    try:
+        return _run(case, ctx)
+    finally:
+        _still_the_same(ctx)
+
+
+def _run(case, ctx):
     from pydsol.core.units import SI, Quantity
     from vlib.base import fx
     cl = _classes()
